@@ -12,6 +12,22 @@ process, and continued to the configured end through step / run / take_steps / r
 interrupted a SECOND time (restore, a few steps, backup, restore in a third process). The per-step digests of the state
 table and of the results so far and the final results must equal the uninterrupted run; the event skeleton of every
 resumed run is compared with the model's (Driver/C01.lean: steps, backup, lost partial step, restore, drive).
+
+WHOLE stream (case kind "whole"): for a WHOLE configuration (`vcheck/props/whole.py`; the exact probe components of
+`vcheck/wholekit.py`, module-level classes that unpickle in any process) and EVERY step boundary n: process A steps n
+times and writes the backup - `write_backup` on an engine context, `write_backup` on an InteractiveContext, or the engine's
+own `run(backup_path, backup_freq)` loop (one process per source writes the backups of all boundaries and carries on) -,
+process B (fresh, another PYTHONHASHSEED, global-RNG noise, possibly after / interleaved with simulations of OTHER WHOLE
+configurations: sibling scenarios with the same seed and stream names) restores it with `dill.load` and continues to the
+end through `step()` / `take_steps(1)` / `run()`; one boundary is interrupted a second time (third process). The state
+table, the clock, the index-map positions, the results and the pipeline values after the restore and after EVERY later
+step are compared CELL BY CELL with what ONE Lean function computes from the configuration alone (`Model/Whole.lean`,
+`Model/WholeDt.lean`; `Driver/Whole.lean` via `driver_of`; `Whole.compare`, unchanged, stage by stage) and - the oracle, the
+property itself - with the uninterrupted run (`whole-resume-differs`, `whole-backup-perturbs-run`). The model side of
+"resuming continues the same simulation" for this composed model is audited with this check (`lean_modules`):
+`Viv.Props.Whole.resume_at_any_boundary` (`iter (n+m) s = (iter n s).bind (iter m)`: table, index map, clock, results,
+errors included), `results_resume` (the results after n+m steps = the results after n run over the events of the last m)
+and `Viv.Props.WholeDt.resumeD` (per-simulant clocks).
 """
 from __future__ import annotations
 
@@ -21,6 +37,7 @@ import shutil
 import tempfile
 
 from .. import enginekit
+from .. import whole_worker as ww
 from ..runner import Prop
 
 SOURCES = ["wb", "ib", "rb"]     # write_backup on an engine context / on an InteractiveContext / run(backup_path, backup_freq)
@@ -35,20 +52,24 @@ def _cpython(err, trace):
 
 class C18(Prop):
     id = "C18"
-    lean_modules = ["VivModel.Props.C18"]
-    build_targets = ["VivModel.Model.Engine", "VivModel.Model.Events", "VivModel.Model.Proto"]
+    lean_modules = ["VivModel.Props.C18", "VivModel.Props.Whole", "VivModel.Props.WholeDt"]
+    build_targets = ["VivModel.Model.Engine", "VivModel.Model.Events", "VivModel.Model.Proto", "VivModel.Model.Whole", "VivModel.Model.WholeDt"]
     driver = "C01"
+    extra_drivers = ["Whole"]        # the cases of kind "whole" are interpreted by the composed model's driver
+    n_spec_quick = 7                 # generated programs of the engine stream (unchanged) ...
+    n_spec_thorough = 60
     technique = "Lean 4 proof (iter_add / resume_eq / resume_chain_eq for every interruption point) + backup/restore differential at every step boundary in fresh processes"
     partial = ("fidelity of dill on the live object graph (closures over clocks, re-bound constrained methods, cached graphs, logging handles) "
                "is runtime behaviour; it is explored at every step boundary of every generated program, not proved")
-    n_quick = 7
-    n_thorough = 60
+    n_quick = 7 + 4                  # ... followed by the WHOLE stream's configurations
+    n_thorough = 60 + 20
     workers = 3
     case_timeout = 1200
     rule = ("each case = one generated program (as C01); for EVERY step boundary n (0..N) a backup written by write_backup (engine and "
             "interactive contexts) or by run(backup_path, backup_freq) is resumed with dill.load in a fresh process under another hash seed "
             "through step / run / take_steps / run_until, one boundary is interrupted twice; evaluations counts programs; "
-            "non-trivial = at least 2 boundaries and digests that change between steps")
+            "non-trivial = at least 2 boundaries and digests that change between steps; WHOLE stream: one WHOLE configuration, every boundary "
+            "backed up by three sources and resumed in a fresh process, every stage compared cell by cell with the composed Lean model")
 
     def boundary(self):
         full = {"clock": "datetime", "step": 10, "n_steps": 3, "pop": 12, "seed": 7, "crn_keys": 2, "map_size": 10000,
@@ -67,16 +88,32 @@ class C18(Prop):
                  "obs": {"strats": 3, "when": "time_step", "concat": True, "defaults": ["sex"], "values": 3, "rich": True, "report": True},
                  "extras": {"pafs": [0.25], "cat": True, "tables": True, "ds": "name", "art": None, "late": 2, "private": True, "foreign": True},
                  "order": [5, 1]}
+        # WHOLE stream: age column, interpolated table + pipeline with three modifiers, observer with a stateful log, key columns
+        from . import whole
         return [{"spec": full, "hs_save": 1, "hs_resume": 2, "noise": 5, "plan": 1},
                 {"spec": vary, "hs_save": 0, "hs_resume": 3, "noise": 9, "plan": 2},
-                {"spec": state, "hs_save": "random", "hs_resume": "random", "noise": 13, "plan": 3}]
+                {"spec": state, "hs_save": "random", "hs_resume": "random", "noise": 13, "plan": 3},
+                {"kind": "whole", "cfg": whole.ext_boundary()[-1], "hs_save": 1, "hs_resume": "random", "noise": 4, "plan": 5}]
 
     def generate(self, rng: random.Random, i: int, tier: str):
+        # the engine stream first (its random stream is what it was before the WHOLE stream existed), then the WHOLE
+        # stream; in a search for a failing input (i >= 10000) every third case is a WHOLE case
+        n_spec = self.n_spec_thorough if tier == "thorough" else self.n_spec_quick
+        if (i >= n_spec and i < 10_000) or (i >= 10_000 and i % 3 == 2):
+            cfg = ww.gen_cfg(rng, tier, flavour=i - n_spec + 1 if i < 10_000 else i // 3, max_stages=8 if tier == "thorough" else 5)
+            return {"kind": "whole", "cfg": cfg, "hs_save": rng.choice([0, 1, "random"]), "hs_resume": rng.choice([2, 3, "random"]),
+                    "noise": rng.randint(0, 10_000), "thorough": tier == "thorough", "plan": rng.randint(0, 10 ** 6)}
         spec = enginekit.gen_spec(rng, small=(tier == "quick"), mode=SPEC_MODES[i % len(SPEC_MODES)])
         return {"spec": spec, "hs_save": rng.choice([0, 1, "random"]), "hs_resume": rng.choice([2, 3, "random"]),
                 "noise": rng.randint(0, 10_000), "thorough": tier == "thorough", "plan": rng.randint(0, 10 ** 6)}
 
     def shrink(self, case):
+        if case.get("kind") == "whole":
+            from . import whole
+            for c in whole.PROP.shrink(case["cfg"]):
+                if whole.crn_safe(c):
+                    yield dict(case, cfg=c)
+            return
         s = case["spec"]
         for k in ("obs", "disease", "mort", "stepmod", "extras", "pop_extra", "newborn"):
             if s.get(k):
@@ -103,6 +140,8 @@ class C18(Prop):
         return {"bounds": bounds, "crash": [n for n in crash if n < nsteps or n == 0], "chain": chain, "sources": srcs}
 
     def run_impl(self, case):
+        if case.get("kind") == "whole":
+            return self._whole_run(case)
         from .. import components
         spec = dict(case["spec"])
         d = tempfile.mkdtemp(prefix="vc18-")
@@ -196,6 +235,9 @@ class C18(Prop):
         return pre + [f"steps {r['boundary']}", "backup"] + lost + ["restore", drive, "finalize", "log"]
 
     def model_lines(self, case, obs):
+        if case.get("kind") == "whole":
+            from . import whole
+            return [] if obs["full"].get("worker_error") else whole.PROP.model_lines(case["cfg"], obs["full"])
         if obs["full"].get("error"):
             return []
         lines = []
@@ -206,6 +248,8 @@ class C18(Prop):
         return lines
 
     def compare(self, case, obs, replies):
+        if case.get("kind") == "whole":
+            return self._whole_compare(case, obs, replies)
         out, k = [], 0
         tag = {"time_step__prepare": "prepare", "collect_metrics": "metrics", "simulation_end": "end"}
         for r in obs["resumed"]:
@@ -226,6 +270,8 @@ class C18(Prop):
 
     # ------------------------------------------------------------------ the property on the observed behaviour
     def oracle(self, case, obs):
+        if case.get("kind") == "whole":
+            return self._whole_oracle(case, obs)
         from .. import components
         f = []
         if obs["full"]["error"]:
@@ -266,12 +312,18 @@ class C18(Prop):
         return f
 
     def nontrivial(self, case, obs):
+        if case.get("kind") == "whole":
+            u = obs["full"]
+            return not u.get("worker_error") and obs.get("nsteps", 0) >= 1 and bool(u["steps"][-1]) and any(
+                not r["run"].get("worker_error") for r in obs["resumed"])
         d = obs["full"].get("digests") or []
         return obs.get("nsteps", 0) >= 1 and len({x.split(":")[1] for x in d}) >= 2 and case["spec"]["pop"] > 0
 
     def tags(self, case, obs):
+        if case.get("kind") == "whole":
+            return self._whole_tags(case, obs)
         s = case["spec"]
-        t = [s["clock"], f"crn{s['crn_keys']}", f"boundaries:{obs.get('nsteps', 0) + 1}"]
+        t = ["kind:engine", s["clock"], f"crn{s['crn_keys']}", f"boundaries:{obs.get('nsteps', 0) + 1}"]
         for k in ("mort", "disease", "stepmod", "obs", "extras", "pop_extra", "newborn", "perm"):
             t.append(k if s.get(k) else "no-" + k)
         o, x, d = s.get("obs") or {}, s.get("extras") or {}, s.get("disease") or {}
@@ -292,9 +344,212 @@ class C18(Prop):
         return t
 
     def sample_view(self, case, obs):
+        if case.get("kind") == "whole":
+            from . import whole
+            u = obs["full"]
+            return {"kind": "whole", "cfg": case["cfg"], "hs_save": case["hs_save"], "hs_resume": case["hs_resume"],
+                    "boundaries": obs.get("nsteps", 0) + 1, "resumed": [r["label"] for r in obs.get("resumed", [])][:14],
+                    "uninterrupted": {"init": whole.show_table(u.get("init"))[:300], "last": whole.show_table((u.get("steps") or [None])[-1])[:400],
+                                      "error": u.get("error"), "clocks": u.get("clocks")}}
         return {"spec": case["spec"], "hs_save": case["hs_save"], "hs_resume": case["hs_resume"], "boundaries": obs.get("nsteps", 0) + 1,
                 "resumed": [r["n"] for r in obs.get("resumed", [])][:12],
                 "full_digests": (obs["full"].get("digests") or [])[:5], "results": obs["full"].get("results")}
+
+    # ================================================================== WHOLE stream (case kind "whole")
+    WSOURCES = {"wb": ("step", "write_backup"), "ib": ("interactive_step", "write_backup"), "rb": ("run_backup", "run_backup")}
+
+    def driver_of(self, case):
+        return "Whole" if case.get("kind") == "whole" else self.driver
+
+    def _whole_plan(self, case, nsteps):
+        """which source's backup is resumed how at each boundary, after which earlier simulations; the twice-interrupted
+        boundary - a function of the case alone"""
+        rng = random.Random(f"wplan:{case.get('plan', 0)}")
+        cfg = case["cfg"]
+        srcs = [s for s in ("wb", "ib", "rb") if not (s == "rb" and cfg["pop"] == 0)]
+        sib = ww.sibling(rng, cfg)
+        other = ww.gen_cfg(rng, "quick", 0, max_stages=4)
+        priors = [[], [], [{"cfg": sib, "style": "finished", "mode": "step"}],
+                  [{"cfg": other, "style": "finished", "mode": "run"}, {"cfg": sib, "style": "unfinished", "mode": "step"}],
+                  [{"cfg": sib, "style": "interleaved", "mode": "step"}]]
+        bounds = []
+        for n in range(nsteps + 1):
+            use = srcs if case.get("thorough") else [srcs[(n + case.get("plan", 0)) % len(srcs)]]
+            for src in use:
+                bounds.append({"n": n, "src": src, "mode": rng.choice(["step", "run", "take"]), "prior": rng.choice(priors)})
+        chain = None
+        if nsteps >= 2:
+            n1 = rng.randint(0, nsteps - 2)
+            chain = {"n": n1, "src": rng.choice(srcs), "after": rng.randint(1, nsteps - 1 - n1), "mode": rng.choice(["step", "run"])}
+        return {"bounds": bounds, "chain": chain, "sources": srcs, "saver_prior": [{"cfg": sib, "style": "finished", "mode": "step"}]}
+
+    @staticmethod
+    def _trim(r):
+        r.pop("first_hashes", None)
+        r["trace"] = (r.get("trace") or "")[-600:]
+        return r
+
+    def _whole_run(self, case):
+        cfg = case["cfg"]
+        d = tempfile.mkdtemp(prefix="vc18w-")
+        try:
+            plan0 = self._whole_plan(case, 0)
+            # round 1: the uninterrupted run (nothing else in the process, no extra component: what ./check WHOLE runs) and one
+            # process per source that writes the backup of EVERY boundary and carries on to the end
+            savers = [({"cfg": cfg, "mode": self.WSOURCES[s][0], "noise": case["noise"] + k, "probe": True,
+                        "prior": plan0["saver_prior"] if k == 1 else [],
+                        "save": {"pattern": os.path.join(d, s + "%d.pkl"), "how": self.WSOURCES[s][1]}}, case["hs_save"])
+                      for k, s in enumerate(plan0["sources"])]
+            r1 = ww.run_jobs([({"cfg": cfg, "mode": "step", "noise": 0, "probe": False, "prior": []}, 0)] + savers, parallel=4)
+            full, sres = self._trim(r1[0]), [self._trim(x) for x in r1[1:]]
+            out = {"kind": "whole", "full": full, "nsteps": 0, "savers": [{"src": s, "run": x} for s, x in zip(plan0["sources"], sres)], "resumed": []}
+            if full.get("worker_error") or full.get("init") is None:
+                return out
+            nsteps = len(full["steps"])
+            out["nsteps"] = nsteps
+            plan = self._whole_plan(case, nsteps)
+            jobs = [({"cfg": cfg, "noise": case["noise"] + 11 + k, "prior": b["prior"],
+                      "resume": {"path": os.path.join(d, f"{b['src']}{b['n']}.pkl"), "at": b["n"], "mode": b["mode"]}}, case["hs_resume"])
+                    for k, b in enumerate(plan["bounds"])]
+            ch = plan["chain"]
+            if ch:
+                jobs.append(({"cfg": cfg, "noise": case["noise"] + 7, "prior": [],
+                              "resume": {"path": os.path.join(d, f"{ch['src']}{ch['n']}.pkl"), "at": ch["n"], "mode": "step",
+                                         "then_save": {"after": ch["after"], "path": os.path.join(d, "chain.pkl")}}}, case["hs_resume"]))
+            r2 = ww.run_jobs(jobs, parallel=8)
+            for b, r in zip(plan["bounds"], r2):
+                out["resumed"].append({"label": f"{b['src']}{b['n']}/{b['mode']}" + ("+" + ",".join(p["style"] for p in b["prior"]) if b["prior"] else ""),
+                                       "n": b["n"], "src": b["src"], "mode": b["mode"], "prior": [p["style"] for p in b["prior"]], "run": self._trim(r)})
+            if ch:
+                l1 = self._trim(r2[-1])
+                n2 = ch["n"] + ch["after"]
+                lab = f"chain:{ch['src']}{ch['n']}+{ch['after']}"
+                if l1.get("worker_error") or not l1.get("stopped"):
+                    # the first leg did not get as far as its second backup: reported as a resumed run of its own
+                    out["resumed"].append({"label": lab + " (first leg)", "n": ch["n"], "src": ch["src"], "mode": "step", "prior": [], "run": l1, "leg1": True})
+                elif n2 in (l1.get("skipped") or []):
+                    out["resumed"].append({"label": lab + " (second backup skipped)", "n": n2, "src": ch["src"], "mode": ch["mode"], "prior": [],
+                                           "run": {"worker_error": None, "cpython_skip": True}, "chain": True})
+                else:
+                    l2 = ww.run_jobs([({"cfg": cfg, "noise": case["noise"] + 8, "prior": [],
+                                        "resume": {"path": os.path.join(d, "chain.pkl"), "at": n2, "mode": ch["mode"]}}, case["hs_save"])], parallel=1)
+                    out["resumed"].append({"label": f"{lab}/{ch['mode']}", "n": n2, "src": ch["src"], "mode": ch["mode"], "prior": [],
+                                           "run": self._trim(l2[0]), "chain": True, "leg1_stages": ww.stages_of(l1)})
+            return out
+        finally:
+            shutil.rmtree(d, ignore_errors=True)
+
+    @staticmethod
+    def _whole_skipped(obs, r):
+        """the backup this resume needed was not written because of CPython's pickler assertion (two empty buffers)"""
+        if r["run"].get("cpython_skip"):
+            return True
+        sv = {s["src"]: s["run"] for s in obs["savers"]}.get(r["src"]) or {}
+        return (not r.get("chain")) and r["n"] in (sv.get("skipped") or [])
+
+    def _whole_compare(self, case, obs, replies):
+        """`Whole.compare` (unchanged): the uninterrupted run, every saver's own run, and every resumed run - its stages
+        n..N placed after the uninterrupted run's stages 0..n-1 - against the ONE model run"""
+        from . import whole
+        cfg = case["cfg"]
+        full = obs["full"]
+        if full.get("worker_error"):
+            return []
+
+        def cmp(label, o):
+            try:
+                d = whole.PROP.compare(cfg, o, replies)
+            except IndexError:
+                d = ["more stages than the model was asked for"]
+            return [f"{label}: {x}" for x in d]
+        out = cmp("uninterrupted run", ww.whole_obs_of_run(full))
+        if out:
+            return out
+        for s in obs["savers"]:
+            if not s["run"].get("worker_error"):
+                out += cmp(f"the run that wrote its backups ({s['src']})", ww.whole_obs_of_run(s["run"]))
+        pre = ww.stages_of(full)
+        for r in obs["resumed"]:
+            x = r["run"]
+            if x.get("worker_error") or x.get("cpython_skip") or x.get("init") is None and not x.get("error"):
+                continue
+            st = ww.stages_of(x)
+            if x.get("mode") in ww.RUN_LIKE and not r.get("leg1"):
+                err = x.get("error")
+                o = ww.as_whole_obs(pre[:r["n"]] + st[:1], None, True, x.get("size"), st[-1] if len(st) > 1 else None, err)
+            else:
+                o = ww.as_whole_obs(pre[:r["n"]] + st, None if x.get("stopped") else x.get("error"), False, x.get("size"))
+            out += cmp(f"resumed {r['label']}", o)
+        return out
+
+    def _whole_oracle(self, case, obs):
+        """the property itself: whatever boundary the run is interrupted at, whoever restores it, it continues as the
+        uninterrupted run does - stage by stage: state table, clock, index-map positions, results, pipeline log, clocks"""
+        f = []
+        full = obs["full"]
+        if full.get("worker_error"):
+            return [{"sig": "whole-run-raised", "msg": f"{full['worker_error']} {full.get('trace', '')}"}]
+        if full.get("error") and str(full["error"]["class"]).startswith("other"):
+            return [{"sig": "whole-unexpected-exception", "msg": str(full["error"])}]
+        want = set(range(obs["nsteps"] + 1)) if full.get("init") is not None else set()
+        for s in obs["savers"]:
+            x = s["run"]
+            if x.get("worker_error"):
+                f.append({"sig": "whole-backup-raised", "msg": f"writing the backups ({s['src']}): {x['worker_error']} {x.get('trace', '')}"})
+                continue
+            d = ww.diff_runs(full, x)
+            if d:
+                f.append({"sig": "whole-backup-perturbs-run", "msg": f"the run that wrote its backups ({s['src']}) differs from the run that wrote none: {d}"})
+            elif set(x.get("saved") or []) | set(x.get("skipped") or []) != want:
+                f.append({"sig": "whole-backup-count", "msg": f"{s['src']}: backups of the boundaries {sorted(x.get('saved') or [])}, the run has {sorted(want)}"})
+        bad_saver = {s["src"] for s in obs["savers"] if s["run"].get("worker_error")}
+        for r in obs["resumed"]:
+            x = r["run"]
+            if self._whole_skipped(obs, r) or (r["src"] in bad_saver and not r.get("chain")):
+                continue          # (a saver that failed is reported once, above)
+            if x.get("worker_error"):
+                f.append({"sig": "whole-resume-raised", "msg": f"boundary {r['label']}: {x['worker_error']} {x.get('trace', '')}"})
+                continue
+            if x.get("stopped"):
+                continue
+            d = ww.diff_runs(full, x, first=r["n"])
+            if d:
+                f.append({"sig": "whole-resume-differs", "msg": f"interrupted after step {r['n']} ({r['label']}, restored as {x.get('ctx')}): {d}"})
+            elif r.get("leg1_stages") is not None:
+                # the first leg of the twice-interrupted run (restore, a few steps, second backup) against the uninterrupted run
+                a = ww.stages_of(full)[r["n"] - len(r["leg1_stages"]) + 1: r["n"] + 1]
+                if a != r["leg1_stages"]:
+                    f.append({"sig": "whole-resume-differs", "msg": f"{r['label']}: the stages between the two interruptions differ from the uninterrupted run"})
+        return f
+
+    def _whole_tags(self, case, obs):
+        from . import whole
+        cfg = case["cfg"]
+        t = ["kind:whole", f"whole:boundaries:{obs.get('nsteps', 0) + 1}"]
+        for s in obs["savers"]:
+            if not s["run"].get("worker_error"):
+                t.append("whole:saver:" + s["src"])
+        for r in obs["resumed"]:
+            x = r["run"]
+            if self._whole_skipped(obs, r):
+                t.append("whole:skipped:cpython-empty-buffer-pickle-assert")
+            elif not x.get("worker_error") and not x.get("stopped"):
+                t += ["whole:resumed-ok", f"whole:source:{r['src']}", f"whole:resume-mode:{r['mode']}", f"whole:resumed-as:{x.get('ctx')}"]
+                t += [f"whole:restored-after:{p}" for p in r["prior"]]
+                if r.get("chain"):
+                    t.append("whole:interrupted-twice")
+                if r["n"] == 0:
+                    t.append("whole:resumed-at-boundary-0")
+                if r["n"] == obs.get("nsteps"):
+                    t.append("whole:resumed-at-the-end")
+                if x.get("error"):
+                    t.append("whole:resumed-run-raises-as-the-uninterrupted")
+        u = obs["full"]
+        if not u.get("worker_error"):
+            keep = ("outcome:", "hash-collision:", "block=", "clock:", "keycols:", "ext:", "pipe:called", "obs:results-nonzero", "births:", "untracked:",
+                    "machine-moved", "dt:global-step-grew")
+            t += ["whole:" + x for x in whole.PROP.tags(cfg, u) if x.startswith(keep)]
+        return t
 
 
 PROP = C18()
